@@ -148,7 +148,8 @@ func (hs *serverHandshakeState) readClientHello() (isResume bool, err error) {
 	}
 
 	c.vers, ok = c.config.mutualVersion(hs.clientHello.vers)
-	if !ok {
+	if !ok || c.vers == VersionGMSSL {
+		// the GMSSL version number has no meaning on the standard TLS path
 		c.sendAlert(alertProtocolVersion)
 		return false, fmt.Errorf("tls: client offered an unsupported, maximum protocol version of %x", hs.clientHello.vers)
 	}
